@@ -1,6 +1,7 @@
 package main
 
 import (
+	"os"
 	"strconv"
 	"fmt"
 	"go/ast"
@@ -13,7 +14,7 @@ import (
 )
 
 func (e *Engine) newFV(fn *ssa.Function, con *Contract, mode Mode) *FV {
-	v := &FV{eng: e, top: fn, con: con, mode: mode, preSeen: map[string]bool{}, arrays: map[string]string{}, refArrays: map[string]bool{}, stableArrays: map[string]bool{}, freshSet: map[string]bool{}, sliceArr: map[string]Term{}, assumed: map[string]bool{}, trusted: map[string]bool{},
+	v := &FV{eng: e, top: fn, con: con, mode: mode, ghostAfterHits: map[string]int{}, preSeen: map[string]bool{}, arrays: map[string]string{}, refArrays: map[string]bool{}, stableArrays: map[string]bool{}, freshSet: map[string]bool{}, sliceArr: map[string]Term{}, assumed: map[string]bool{}, trusted: map[string]bool{},
 		oblNames: map[string]int{}, strLits: map[string]Term{}, kindCount: map[string]int{}}
 	v.useClock = con != nil && con.Clock
 	v.n0 = "N0!"
@@ -229,11 +230,17 @@ func (e *Engine) VerifyFunction(fn *ssa.Function, con *Contract) (v *FV) {
 	exits := v.execBody(fr, st)
 	// post-conditions at every normal exit
 	var reaches []Term
+	sawRecovered := false
 	for _, ex := range exits {
 		if ex.panics {
 			continue
 		}
 		reaches = append(reaches, ex.st.reach)
+		if os.Getenv("GOVC_DEADEXITS") != "" && v.quiet == 0 {
+			// diagnostic (not part of the registered checks): is this exit reachable under the assumptions?
+			v.obls = append(v.obls, &Obligation{Name: fmt.Sprintf("%s#exitreach.%d", v.curFnKey, len(reaches)), Kind: "cover", Fn: v.curFnKey,
+				Text: "diagnostic: this exit is reachable", Reach: "true", Goal: fmt.Sprintf("(not %s)", ex.st.reach), ScriptLen: len(v.script), Expect: "sat"})
+		}
 		vars := map[string]TV{}
 		for k, x := range fr.params {
 			vars[k] = x
@@ -253,6 +260,7 @@ func (e *Engine) VerifyFunction(fn *ssa.Function, con *Contract) (v *FV) {
 		if ex.recovered {
 			clauses = con.EnsuresRecovered
 			kind = "post.recovered"
+			sawRecovered = true
 		}
 		for i, c := range clauses {
 			t, err := penv.EvalBool(c.Text)
@@ -272,6 +280,16 @@ func (e *Engine) VerifyFunction(fn *ssa.Function, con *Contract) (v *FV) {
 		if con.HasMod {
 			v.frameCheck(fr, ex.st, con, vars, penv.pkg)
 		}
+	}
+	for _, g := range con.GhostAfter {
+		if v.ghostAfterHits[g.Name] == 0 && v.quiet == 0 {
+			v.specError(g, fmt.Errorf("ghost_after %s matches no call of this function", g.Name))
+		}
+	}
+	if len(con.EnsuresRecovered) > 0 && !sawRecovered && v.quiet == 0 {
+		// vacuity guard: clauses about the state after a recovered panic, but no call in the body is
+		// declared may_panic, so no recovered exit exists and the clauses were never checked
+		v.specError(con.EnsuresRecovered[0], fmt.Errorf("ensures_recovered is never checked: no callee of this function is declared may_panic (no recovered exit)"))
 	}
 	for _, lk := range con.Atomic2 {
 		n := 0
@@ -730,7 +748,7 @@ func (v *FV) allowedLocs(fr *Frame, st *State, locs []string, con *Contract, var
 func (v *FV) loopFrameTerm(fr *Frame, st *State, arrs []string, allowed map[string][]Term) Term {
 	var parts []string
 	for _, a := range arrs {
-		if strings.HasPrefix(a, "RV_") || strings.HasSuffix(a, "$n") || a == "TOP" || a == "CALLS" || a == "ARGNN" || a == "STAMP" || a == "RESNIL" {
+		if strings.HasPrefix(a, "RV_") || strings.HasSuffix(a, "$n") || a == "TOP" || a == "CALLS" || a == "ARGNN" || a == "ARGV" || a == "LOCKED" || a == "CLOCK" || a == "STAMP" || a == "RESNIL" {
 			continue
 		}
 		now := v.heapGet(st.snap, a)
